@@ -181,7 +181,6 @@ Qed.
 Lemma fits_int_mono w w' z : w <= w' -> fits_int w z -> fits_int w' z.
 Proof. unfold fits_int. lia. Qed.
 
-Definition first_ok (t : epoch_t) : Prop := epoch_t_wf t /\ fits_int 6 (ep_y t) /\ fits_F 13 7 (ep_s7 t).
 
 Lemma first_obs_widths t : first_ok t -> widths_ok (first_obs_pieces t) [6; 6; 6; 6; 6; 13; 5; 3].
 Proof.
@@ -193,16 +192,17 @@ Qed.
 Lemma table_first2 : table_find "TIME OF FIRST OBS" G2.header_table = Some ("_parse_time_of_first_obs", false, first_obs_fields).
 Proof. reflexivity. Qed.
 
-Lemma first_obs_ok t s : first_ok t ->
-  header_line G2.header_table (first_obs_line t) s =
+Lemma first_obs_ok_gen tbl t s :
+  table_find "TIME OF FIRST OBS" tbl = Some ("_parse_time_of_first_obs", false, first_obs_fields) -> first_ok t ->
+  header_line tbl (first_obs_line t) s =
   Some (set_meta (assoc_set "time_first_obs" (MStr (time_text (ep_y t) (ep_mo t) (ep_d t) (ep_h t) (ep_mi t) (dec_value (ep_s7 t) 7)))
                             (assoc_set "time_sys" (MStr "GPS") (meta s))) s).
 Proof.
-  intros Ok. pose proof (first_obs_widths t Ok) as W. pose proof (len_cat_widths _ _ W) as Lx.
+  intros Tb Ok. pose proof (first_obs_widths t Ok) as W. pose proof (len_cat_widths _ _ W) as Lx.
   destruct Ok as [[Hy _] _].
   assert (K : label_ok "TIME OF FIRST OBS") by (split; [discriminate|reflexivity]).
   set (x := cat (first_obs_pieces t)) in *. assert (Lb : len x <= 60) by (rewrite Lx; simpl; lia).
-  unfold header_line, first_obs_line. fold x. rewrite (label_of_hdr_line _ _ Lb K), (rstrip_hdr_line _ _ K), table_first2.
+  unfold header_line, first_obs_line. fold x. rewrite (label_of_hdr_line _ _ Lb K), (rstrip_hdr_line _ _ K), Tb.
   change (header_record "_parse_time_of_first_obs") with (h_time "time_first_obs" true). unfold fields_of.
   set (vals := parse_record first_obs_fields (hdr_line x "TIME OF FIRST OBS")).
   assert (P : forall i a b, i < 8 -> a = list_sum (firstn i [6; 6; 6; 6; 6; 13; 5; 3]) -> b = list_sum (firstn (S i) [6; 6; 6; 6; 6; 13; 5; 3]) ->
@@ -233,3 +233,9 @@ Proof.
   rewrite <- (strip_render_int_nonneg 6 _ Hy). rewrite !parse_int_strip, !parse_render_int.
   unfold parse_float. rewrite parse_float_strip. fold parse_float. rewrite parse_render_F. reflexivity.
 Qed.
+
+Lemma first_obs_ok t s : first_ok t ->
+  header_line G2.header_table (first_obs_line t) s =
+  Some (set_meta (assoc_set "time_first_obs" (MStr (time_text (ep_y t) (ep_mo t) (ep_d t) (ep_h t) (ep_mi t) (dec_value (ep_s7 t) 7)))
+                            (assoc_set "time_sys" (MStr "GPS") (meta s))) s).
+Proof. apply first_obs_ok_gen, table_first2. Qed.
